@@ -122,6 +122,20 @@ func mappedAlphabet() (out []entry) {
 	return out
 }
 
+// caseAlphabet: entries whose domain is written with capital letters (the table
+// is case-insensitive on the domain side whatever the kind of value, including
+// the "A" / "AAAA" exceptions), next to lower-case entries they interact with.
+func caseAlphabet() (out []entry) {
+	pats := []string{"A.Test", "X.a.TEST", "*.Test", "*.A.test", "a.test", "*.test"}
+	ans := []string{"1.1.1.1", "::1", "A", "AAAA", "a.test", "y.a.test"}
+	for _, p := range pats {
+		for _, a := range ans {
+			out = append(out, entry{p, a})
+		}
+	}
+	return out
+}
+
 // curated holds the examples of AGHTechDoc (in the names of the alphabet) and
 // the hard cases named in the design.
 func curated() [][]entry {
@@ -530,17 +544,17 @@ type plan struct {
 func hostPlans(tier string) []plan {
 	full, small := alphabet(), smallAlphabet()
 	if tier == "thorough" {
-		return []plan{{full, 1}, {mappedAlphabet(), 1}, {mappedAlphabet(), 2}, {mappedAlphabet(), 3}, {full, 2}, {full, 3}, {full, 4}, {tinyAlphabet(), 5}}
+		return []plan{{full, 1}, {caseAlphabet(), 1}, {caseAlphabet(), 2}, {mappedAlphabet(), 1}, {mappedAlphabet(), 2}, {mappedAlphabet(), 3}, {full, 2}, {full, 3}, {full, 4}, {tinyAlphabet(), 5}}
 	}
-	return []plan{{full, 1}, {mappedAlphabet(), 1}, {mappedAlphabet(), 2}, {mappedAlphabet(), 3}, {full, 2}, {full, 3}, {small, 4}}
+	return []plan{{full, 1}, {caseAlphabet(), 1}, {caseAlphabet(), 2}, {mappedAlphabet(), 1}, {mappedAlphabet(), 2}, {mappedAlphabet(), 3}, {full, 2}, {full, 3}, {small, 4}}
 }
 
 func wirePlans(tier string) []plan {
 	full, small := alphabet(), smallAlphabet()
 	if tier == "thorough" {
-		return []plan{{full, 1}, {mappedAlphabet(), 1}, {mappedAlphabet(), 2}, {full, 2}, {full, 3}}
+		return []plan{{full, 1}, {caseAlphabet(), 1}, {caseAlphabet(), 2}, {mappedAlphabet(), 1}, {mappedAlphabet(), 2}, {full, 2}, {full, 3}}
 	}
-	return []plan{{full, 1}, {mappedAlphabet(), 1}, {mappedAlphabet(), 2}, {full, 2}, {small, 3}}
+	return []plan{{full, 1}, {caseAlphabet(), 1}, {caseAlphabet(), 2}, {mappedAlphabet(), 1}, {mappedAlphabet(), 2}, {full, 2}, {small, 3}}
 }
 
 func silence() {
